@@ -340,4 +340,37 @@ theorem stopped_image (M : Machine S) (hs : ReplaySafe M) (c0 : Nat) (ins : List
     show above p _ ++ pe = _
     rw [← hpe, above_append, above_all p pe (fun x hx => by have := hpeh x hx; omega)]
 
+/-- **A stop at an input boundary leaves a durable image.** `Run` returns between two inputs (the
+context is cancelled / a listener is closed in the select loop, or the `SetWALEntry` of the next
+input fails, which is the first thing the driver does for it) and the deferred `Close` flushes the
+pending batch: the image then holds the WHOLE log of the reference run, above the same watermark. -/
+theorem Ctx.flush_durable {M : Machine S} {c0 : Nat} {insd : List Input} {s : S} {E : List Entry}
+    {b : Nat} {tr hist : List Effect} {n : Node} (ctx : Ctx M c0 insd s E b tr hist n) :
+    Durable M c0 (applyEffect n Effect.flush) (hist ++ [Effect.flush]) := by
+  obtain ⟨p, hp, hview⟩ := ctx.viewF
+  obtain ⟨pe, hpend, hpe, hpeh⟩ := ctx.pend
+  have hh := ctx.inv.height
+  have hch := ctx.chain
+  have hb : M.height s - 1 = b := by omega
+  refine ⟨s, E, tr, p, insd, ctx.ref, ?_, ?_, ?_, ?_, ?_, ?_, ?_, ?_⟩
+  · show LiveInvW M s E n.chainHeight tr
+    rw [hch]; exact ctx.inv.toW
+  · rw [hb]; exact ctx.inv
+  · show n.chainHeight + 1 ≤ M.height s
+    omega
+  · show M.height s ≤ n.chainHeight + 2
+    omega
+  · show p ≤ n.chainHeight
+    omega
+  · show view (n.store.flushed ++ n.store.pending) = _
+    rw [hpend, view_append_entries _ _ (fun x hx => by
+      rw [hview]; have := hpeh x hx; show p < x.height; omega), hview]
+    show (p, above p _ ++ pe) = _
+    rw [← hpe, above_append, above_all p pe (fun x hx => by have := hpeh x hx; omega)]
+  · show entriesOfRecs (n.store.flushed ++ n.store.pending) = E
+    rw [hpend, entriesOfRecs_append, entriesOfRecs_map_entry, hpe]
+  · intro v hv
+    refine ctx.hv v ?_
+    simpa [votesOf_append, votesOf, Effect.vote?] using hv
+
 end Juno.C13
